@@ -48,7 +48,7 @@ TINY_OPTS = [
 
 def floors(tier):
     return {"tiny": 2000000, "garbage": 3000, "items=0": 1000, "items=1": 1000, "items>=2": 500,
-            "has-d3-00-00": 1000, "short-reads": 800, "trailing-bytes-outside-items": 1000}
+            "has-d3-00-00": 1000, "short-reads": 800, "seekable": 800, "growing-source": 800, "trailing-bytes-outside-items": 1000}
 
 
 def plan(tier, seed):
@@ -71,9 +71,10 @@ def _noop(err):
     return None
 
 
-def judge(data: bytes, opts, bursts=None):
+def judge(data: bytes, opts, bursts=None, seekable=False, grow=None):
     """-> (viol list, nitems, truncated?)"""
-    ts = S.TrackingStream(data, bursts)
+    ts = S.TrackingStream(data, bursts, seekable=seekable)
+    grow = list(grow or [])
     rd = S.mk_reader(ts, opts, _noop if opts.get("quitonerror") == 1 else None)
     prev_end = 0
     nitems = 0
@@ -87,6 +88,11 @@ def judge(data: bytes, opts, bursts=None):
         except Exception:  # noqa - foreign exception: C08's clause; observation ends
             return viol, nitems, "raised"
         e = ts.tell()
+        data = ts.data
+        if raw is None and parsed is None and not ts.rest() and grow:
+            # the source gains data after end-of-stream was reported: reading must resume
+            ts.append(bytes(grow.pop(0)))
+            continue
         if raw is None and parsed is None:
             if ts.rest():
                 viol.append((f"{PROP}|unread-at-eof",
@@ -115,10 +121,15 @@ def judge(data: bytes, opts, bursts=None):
 
 def check(case) -> core.Out:
     data, opts = bytes(case["data"]) if "data" in case else streams.stream_bytes(case["items"]), dict(case["opts"])
-    viol, nitems, trunc = judge(data, opts, case.get("bursts"))
+    viol, nitems, trunc = judge(data, opts, case.get("bursts"), seekable=bool(case.get("seekable")),
+                                grow=case.get("grow"))
     classes = ["garbage", "items=0" if nitems == 0 else ("items=1" if nitems == 1 else "items>=2")]
     if case.get("bursts"):
         classes.append("short-reads")
+    if case.get("seekable"):
+        classes.append("seekable")
+    if case.get("grow"):
+        classes.append("growing-source")
     if b"\xd3\x00\x00" in data:
         classes.append("has-d3-00-00")
     if trunc is True:
@@ -150,8 +161,13 @@ def run_shard(spec, ctx, acc):
         # a third of the streams are delivered in bursts (reads may come back short,
         # like a serial port with a timeout); the rest as one block
         bursts = st.one_of(st.none(), st.none(), st.lists(st.integers(1, 40), min_size=1, max_size=30))
-        strat = st.tuples(st.one_of(streams.garbage_streams(), streams.clean_streams(1, 5)), GOPTS, bursts).map(
-            lambda t: {"kind": "garbage", "data": streams.stream_bytes(t[0]), "opts": t[1], "bursts": t[2]})
+        grow = st.one_of(st.none(), st.none(), st.lists(
+            st.one_of(streams.clean_streams(1, 3, bursts=False), streams.garbage_streams(3)).map(streams.stream_bytes),
+            min_size=1, max_size=2))
+        strat = st.tuples(st.one_of(streams.garbage_streams(), streams.clean_streams(1, 5)), GOPTS, bursts,
+                          st.booleans(), grow).map(
+            lambda t: {"kind": "garbage", "data": streams.stream_bytes(t[0]), "opts": t[1], "bursts": t[2],
+                       "seekable": t[3] and not t[2], "grow": t[4]})
         core.hyp_search(acc, strat, check, seed=core.derive(ctx["seed"], PROP, "g", spec["part"]),
                         max_examples=300 if ctx["tier"] == "quick" else 8000, known=known, rounds=3)
         return
